@@ -837,10 +837,18 @@ impl Vm {
       Some(symbol) => {
         if symbol == VALUE_UNDEFINED {
           match module.get_symbol_name_by_slot(slot as usize) {
-            Some(name) => self.runtime_error_from_str(
-              self.builtin.errors.runtime,
-              &format!("Undefined variable {name}"),
-            ),
+            Some(name) => {
+              // the class of a catch clause is read while its handler is still in place, the
+              // handler must not receive the error of its own clause
+              if self.fiber.is_unwinding() {
+                self.fiber.error_while_handling();
+              }
+
+              self.runtime_error_from_str(
+                self.builtin.errors.runtime,
+                &format!("Undefined variable {name}"),
+              )
+            },
             None => self.internal_error("Could not find symbol name"),
           }
         } else {
